@@ -46,7 +46,8 @@ def c06(ctx: Ctx):
                 "YAML and octet-stream bodies; charset parameters on key / header per decoder family; structure characters in urlencoded strings (+ and %XX spellings); "
                 "pipe / space delimited arrays; multipart parts as application/json (typed, nested object) and as files, 3 boundary spellings; "
                 "14 kinds of body text that encode nothing (must be rejected); pretty / escaped JSON and flow YAML spellings; the decoder alias media types; "
-                "the opt-in zip decoder; a deepObject object property of a urlencoded body; every case distinct and judged")
+                "the opt-in zip decoder; text/csv; a deepObject object property of a urlencoded body; booleans and numbers (schema S9) under every decoder; "
+                "every case distinct and judged")
     ctx.validate("Trace_C06", "Trace_C06.cfg", logp, chunk_lines=480)
     if not ctx.replay:
         registry_clause(ctx)
